@@ -1,6 +1,10 @@
 (* C05 — read-only accessors on JSONB bytes agree with the document they encode.
    v is any well-formed value whose top-level count is below 2^24 (the first-byte test); d is the decoded tree,
    value-equal to v and with the identical encoding (C01). *)
+(* NOTE on the `*_m` statements in this file: `*_m` (Dispatch.v) is the view-level composition "decode, apply the tree
+   function, encode"; it is a specification device and is no longer what the correspondence check runs against the crate.
+   The statements tied to the Rust code are the ones about the offset-faithful walkers `*_w` below, which relate `*_w` on
+   encodings directly to the same tree functions `*_t`. *)
 From Coq Require Import List NArith ZArith Bool.
 Import ListNotations.
 From JB Require Import Constants Bytes Num Value Codec TreeOps Order RoundtripProofs Dispatch DispatchProofs.
